@@ -292,6 +292,69 @@ func c19Locks(c *Ctx) {
 		c.R.Bad(rule, "package variable "+name+" is a shared mutable object without a guard", c.P.Pos(a.in.Pos()),
 			"a package-level "+pt.String()+" is used (method calls) at runtime by "+core.FuncName(a.fn)+" with no guard lock and no known concurrency-safe type: every connection in the process shares it (e.g. a *rand.Rand from rand.New is not safe for concurrent use)")
 	}
+	// 1c. a package variable whose address is handed out (call argument, closure capture, stored
+	// pointer) is written by whoever holds the pointer — at any time, on any thread
+	{
+		type esc struct {
+			g   *ssa.Global
+			pos token.Pos
+			how string
+		}
+		var escs []esc
+		for _, fn := range c.P.RepoFuncs(an.LibraryPkg) {
+			for _, b := range fn.Blocks {
+				for _, in := range b.Instrs {
+					var ops []ssa.Value
+					how := ""
+					switch x := in.(type) {
+					case ssa.CallInstruction:
+						cc := x.Common()
+						if cc.IsInvoke() {
+							ops = cc.Args
+						} else if cal := cc.StaticCallee(); cal != nil && cal.Signature.Recv() != nil && len(cc.Args) > 0 {
+							// method call on the variable itself: its own methods decide (1b / sync types)
+							ops = cc.Args[1:]
+						} else {
+							ops = cc.Args
+						}
+						how = "passed to " + calleeLabel(x)
+					case *ssa.MakeClosure:
+						ops = x.Bindings
+						how = "captured by a closure"
+					case *ssa.Store:
+						ops = []ssa.Value{x.Val}
+						how = "stored as a pointer"
+					case *ssa.MakeInterface:
+						ops = []ssa.Value{x.X}
+						how = "boxed into an interface"
+					}
+					for _, o := range ops {
+						if g, ok := o.(*ssa.Global); ok && core.IsRepoPkg(g.Pkg.Pkg) {
+							escs = append(escs, esc{g, in.Pos(), how + " in " + core.FuncName(fn)})
+						}
+					}
+				}
+			}
+		}
+		seenG := map[*ssa.Global]bool{}
+		for _, e := range escs {
+			name := globalName(e.g)
+			if seenG[e.g] || isSyncType(e.g.Type().(*types.Pointer).Elem()) || strings.HasPrefix(name, "proto/") {
+				continue
+			}
+			if _, ok := guardTable[name]; ok {
+				continue
+			}
+			seenG[e.g] = true
+			if why, ok := addressEscapeExceptions[name]; ok {
+				c.R.OK(rule, "package variable "+name+" is not shared by reference", c.P.Pos(e.pos), "confirmed by reading: "+why)
+				continue
+			}
+			c.R.Bad(rule, "package variable "+name+" is not shared by reference", c.P.Pos(e.pos),
+				"the address of a package-level variable is "+e.how+": whoever holds the pointer writes the variable at run time, on any thread, outside every guard (e.g. a parser built once around '&result' makes the result a process-wide variable: two connections creating tables at the same time read each other's option values)")
+		}
+		c.R.Stats["C19.address_escapes"] = len(escs)
+	}
 	// 2. every access of a guarded global holds its guard
 	held := map[*ssa.Function]map[ssa.Instruction]lockState{}
 	nAcc := 0
@@ -386,6 +449,11 @@ func c19Locks(c *Ctx) {
 	}
 }
 
+// addressEscapeExceptions: package variables whose address is handed out, each confirmed by reading.
+var addressEscapeExceptions = map[string]string{
+	"writetime.i": "the address is the unique context key (key = &i); nothing ever dereferences it",
+}
+
 func isSyncType(t types.Type) bool {
 	if pt, ok := t.(*types.Pointer); ok {
 		t = pt.Elem()
@@ -473,4 +541,47 @@ func lockLeaks(fn *ssa.Function) []lockLeak {
 	}
 	sort.Slice(out, func(i, j int) bool { return out[i].pos < out[j].pos })
 	return out
+}
+
+// ---- C19.registry-exact: a name addresses at most one table -----------------------------------------
+
+func init() {
+	register(&Rule{Name: "C19.registry-exact", Min: 1, Run: c19RegistryExact,
+		Doc: "the process-wide table registry is only read by exact key: no lookup iterates the map (Go's map order is random, so 'first match' picks a table by chance)"})
+	byProp["C19"] = append(byProp["C19"], "C19.registry-exact")
+	explain["C19"] += " registry-exact: name-addressed functions (s3db_version / refresh / vacuum / changes) must reach the caller's own table; the registry is shared by all connections of the process, so a lookup that ranges over it with a looser match (case-insensitive, prefix) returns another connection's table depending on map iteration order — every read of the registry outside init is an index expression with the name as key."
+}
+
+func c19RegistryExact(c *Ctx) {
+	const rule = "C19.registry-exact"
+	n := 0
+	for _, fn := range c.P.RepoFuncs(an.LibraryPkg) {
+		for _, b := range fn.Blocks {
+			for _, in := range b.Instrs {
+				ld, ok := in.(*ssa.UnOp)
+				if !ok || ld.Op != token.MUL {
+					continue
+				}
+				g, ok := ld.X.(*ssa.Global)
+				if !ok || g.Name() != "tables" || !core.IsRepoPkg(g.Pkg.Pkg) || ld.Referrers() == nil {
+					continue
+				}
+				for _, r := range *ld.Referrers() {
+					n++
+					switch x := r.(type) {
+					case *ssa.Range:
+						c.R.Bad(rule, core.FuncName(fn)+": registry read by exact name", c.P.Pos(x.Pos()),
+							"the table registry is iterated: which table a non-exact match returns depends on Go's random map order, and the registry holds the tables of every connection in the process")
+					case *ssa.Lookup, *ssa.MapUpdate:
+						// exact key
+					}
+				}
+			}
+		}
+	}
+	if n == 0 {
+		c.R.Unk(rule, "s3db: table registry", "-", "no read of the package variable 'tables' found")
+		return
+	}
+	c.R.OK(rule, "s3db: registry reads counted", "-", fmt.Sprintf("%d uses of the registry inspected", n))
 }
